@@ -23,6 +23,9 @@ from .c07 import lazy_args
 import os
 DEBUG = bool(os.environ.get("C03_DEBUG"))
 TRIVIA = ("leading_trivia", "trailing_trivia")
+# reads of one side of a token's trivia (full_moon accessors and trivia_util's GetLeadingTrivia / GetTrailingTrivia helpers)
+TRIVIA_READS = {"leading_trivia": "leading_trivia", "leading_comments": "leading_trivia", "leading_comments_search": "leading_trivia",
+                "trailing_trivia": "trailing_trivia", "trailing_comments": "trailing_trivia", "trailing_comments_search": "trailing_trivia"}
 TOKEN_TY = re.compile(r"(^|[&: ])TokenReference$")
 GUARDS = {"has_leading_comments": ("leading_trivia",), "has_trailing_comments": ("trailing_trivia",), "contains_comments": TRIVIA,
           "token_contains_comments": TRIVIA, "trivia_contains_comments": TRIVIA, "has_inline_comments": TRIVIA,
@@ -103,13 +106,14 @@ def transplant(ses, rep, fs):
             triv = {}
             for t in hv:
                 last = t[1].split("::")[-1]
-                if last in TRIVIA and "TokenReference" in t[1] and isinstance(t[3], Lazy):
+                if last in TRIVIA_READS and isinstance(t[3], Lazy):
                     a0 = deref_val(ex, o.state, (t[4] if len(t) > 4 else t[2])[0])
-                    if isinstance(a0, Lazy):
+                    if isinstance(a0, Lazy) and TOKEN_TY.search(a0.ty.strip()):
                         a0 = canonical(ex, byoid, a0)
-                        triv.setdefault(a0.oid, {})[last] = t[3]
-            all_triv = {r.oid for d_ in triv.values() for r in d_.values()}
-            D = P.of(v, stop=all_triv)
+                        triv.setdefault(a0.oid, {}).setdefault(TRIVIA_READS[last], t[3])
+                        triv[a0.oid].setdefault("all:" + TRIVIA_READS[last], []).append(t[3])
+            all_triv = {r.oid for d_ in triv.values() for k_, l_ in d_.items() if k_.startswith("all:") for r in l_}
+            D = P.direct(v, stop=all_triv)      # what is handed on AS A VALUE (a sibling field being used does not keep a token)
             full = P.of(v)
             for oid, T in sorted(toks.items()):
                 if DEBUG: print("TOK", f.name, pi, T, T.oid)
@@ -150,7 +154,17 @@ def transplant(ses, rep, fs):
                 n_tok += 1
                 for side in TRIVIA:
                     res = triv.get(T.oid, {}).get(side)
-                    ok = res is not None and res.oid in full
+                    ok = any(r_.oid in full for r_ in triv.get(T.oid, {}).get("all:" + side, []))
+                    if not ok:
+                        # the same side read from a formatter-made copy of this token / of its container (format_contained_span(..).tokens().1)
+                        for toid, d_ in triv.items():
+                            cp = byoid.get(toid)
+                            if cp is None or toid == T.oid:
+                                continue
+                            pc_ = P.of(cp)
+                            if (T.oid in pc_ or cont_ids & pc_) and any(r_.oid in full for r_ in d_.get("all:" + side, [])) \
+                                    and (cp.label.rstrip("*").endswith(T.label.rstrip("*")[-2:])):
+                                ok = True
                     oid_ = f"transplant/{fs}/{f.name}/path{pi}/{T.label[-40:]}/{side}"
                     if ok:
                         rep.add(oid_, "unsat", "the removed token's trivia is read and carried into the result", nontrivial=False)
@@ -205,69 +219,85 @@ def transplant(ses, rep, fs):
 
 
 def load_step(ses, rep):
-    """L"""
+    """L: load_token_trivia over a trivia list [t1, t2] of two symbolic tokens (next / peek modelled on the list):
+    every comment / shebang element is handed to format_token exactly once and its token pushed exactly once, whatever its neighbour is;
+    a whitespace element is never handed on."""
     flagged = []
     T = ses.enums("default")
     ex = ses.executor("lib", "default", inline=lambda n, f: False)
-    ex.max_block_visits = 2
-    trivia = ex.fresh_lazy("Token", "trivia")
-    ttype = ex.fresh_lazy("TokenType", "trivia.type")
+    ex.max_block_visits = 4
+    ex.max_paths = 20000
+    trivia = [ex.fresh_lazy("Token", "trivia1"), ex.fresh_lazy("Token", "trivia2")]
+    ttype = [ex.fresh_lazy("TokenType", "trivia1.type"), ex.fresh_lazy("TokenType", "trivia2.type")]
+    from ..summaries import opt_some, opt_none
 
     def h(ex_, st, callee, args, dty):
         c = canon(callee)
         if re.search(r"Peekable<.*> as Iterator>::next$", c):
             k = st.aux.get("it", 0)
             st.aux["it"] = k + 1
-            from ..summaries import opt_some, opt_none
-            return opt_some(dty, RefV(RefV(trivia))) if k == 0 else opt_none(dty)
+            return opt_some(dty, RefV(RefV(trivia[k]))) if k < 2 else opt_none(dty)
+        if re.search(r"Peekable<.*>::peek$", c) or c.endswith("Peekable::peek"):
+            k = st.aux.get("it", 0)
+            return opt_some(dty, RefV(RefV(RefV(trivia[k])))) if k < 2 else opt_none(dty)
         if c.endswith("Token::token_type"):
             v = deref_val(ex_, st, args[0])
             while isinstance(v, RefV):
                 v = v.v
-            if v is trivia:
-                return RefV(ttype)
+            for i in (0, 1):
+                if v is trivia[i]:
+                    return RefV(ttype[i])
         return NotImplemented
     ex.hooks = [h]
     f = ses.need(ex, "load_token_trivia")
     outs = ex.run(f, lazy_args(ex, f))
-    d = ex.discr(None, ttype)
     kinds = {n_: T.index("TokenType", n_) for n_ in ("SingleLineComment", "MultiLineComment", "Shebang", "Whitespace")}
     n = 0
+
+    def unwrap(a1):
+        for _ in range(12):
+            if isinstance(a1, RefV):
+                a1 = a1.v
+            elif isinstance(a1, Ref):
+                a1 = deref_val(ex, o.state, a1)
+            elif isinstance(a1, Lazy) and a1 not in trivia and a1.oid in ex.parent and ex.parent[a1.oid][1] == ("deref",):
+                a1 = next((x for x in list(ex.lazy_tab.values()) + [t[3] for t in o.trace if t[0] == "havoc"] if isinstance(x, Lazy) and x.oid == ex.parent[a1.oid][0]), a1)
+            elif isinstance(a1, Lazy) and a1 not in trivia and a1.oid in ex.havoc_calls and ex.havoc_calls[a1.oid][0].split("::")[-1] in ("to_owned", "clone", "deref"):
+                a1 = ex.havoc_snap[a1.oid][0]
+            else:
+                break
+        return a1
     for pi, o in enumerate(outs):
         if o.kind != "return":
             continue
         n += 1
         fts = find_calls(o.trace, lambda n_: n_.split("::")[-1] == "format_token")
         pushes = find_calls(o.trace, lambda n_: re.search(r"Vec::<?.*>?::push$|Vec::push$", n_) is not None)
-        tok_pushes = [p for p in pushes if isinstance(deref_val(ex, o.state, p[1][1]), Lazy)
-                      and any(ex.parent.get(deref_val(ex, o.state, p[1][1]).oid, (None,))[0] == getattr(c[2], "oid", None) for c in fts)]
-        is_comment = z3.Or(*[d == z3.BitVecVal(kinds[k], 64) for k in ("SingleLineComment", "MultiLineComment", "Shebang")])
-        if ses.reachable(list(o.pc) + [is_comment]):
-            a1 = fts[0][1][1] if fts else None
-            for _ in range(12):         # look through references, deref children and to_owned()/clone() copies
-                if isinstance(a1, RefV):
-                    a1 = a1.v
-                elif isinstance(a1, Ref):
-                    a1 = deref_val(ex, o.state, a1)
-                elif isinstance(a1, Lazy) and a1 is not trivia and a1.oid in ex.parent and ex.parent[a1.oid][1] == ("deref",):
-                    a1 = next((x for x in list(ex.lazy_tab.values()) + [t[3] for t in o.trace if t[0] == "havoc"] if isinstance(x, Lazy) and x.oid == ex.parent[a1.oid][0]), a1)
-                elif isinstance(a1, Lazy) and a1 is not trivia and a1.oid in ex.havoc_calls and ex.havoc_calls[a1.oid][0].split("::")[-1] in ("to_owned", "clone", "deref"):
-                    a1 = ex.havoc_snap[a1.oid][0]
-                else:
-                    break
-            ok = len(fts) == 1 and len(tok_pushes) == 1 and a1 is trivia
-            if DEBUG and not ok: print("LOAD", pi, len(fts), len(tok_pushes), a1, [repr(p[1][1])[:60] for p in pushes], [repr(c[2])[:40] for c in fts])
-            r, m = ses.obligation(f"load_token_trivia/path{pi}/comment-formatted-and-pushed-exactly-once", list(o.pc) + [is_comment], z3.BoolVal(not ok),
-                                  "one format_token call on the comment, one push of its token")
-            if r == "sat":
-                flagged.append((f"load_token_trivia/path{pi}", f"a comment trivia is formatted {len(fts)} times and pushed {len(tok_pushes)} times", "load", {}))
-        if ses.reachable(list(o.pc) + [d == z3.BitVecVal(kinds["Whitespace"], 64)]):
-            r, m = ses.obligation(f"load_token_trivia/path{pi}/whitespace-creates-no-comment", list(o.pc) + [d == z3.BitVecVal(kinds["Whitespace"], 64)],
-                                  z3.BoolVal(bool(fts)), "whitespace trivia is not passed on as a token")
-            if r == "sat":
-                flagged.append((f"load_token_trivia/path{pi}/ws", "whitespace trivia is formatted as a token", "load", {}))
+        for i in (0, 1):
+            d = ex.discr(o.state, ttype[i])
+            mine = [c for c in fts if unwrap(c[1][1]) is trivia[i]]
+            pushed = [p for p in pushes if isinstance(deref_val(ex, o.state, p[1][1]), Lazy)
+                      and any(ex.parent.get(deref_val(ex, o.state, p[1][1]).oid, (None,))[0] == getattr(c[2], "oid", None) for c in mine)]
+            is_comment = z3.Or(*[d == z3.BitVecVal(kinds[k], 64) for k in ("SingleLineComment", "MultiLineComment", "Shebang")])
+            if ses.reachable(list(o.pc) + [is_comment]):
+                ok = len(mine) == 1 and len(pushed) == 1
+                r, m = ses.obligation(f"load_token_trivia/path{pi}/element{i + 1}/comment-formatted-and-pushed-exactly-once", list(o.pc) + [is_comment], z3.BoolVal(not ok),
+                                      "one format_token call on the comment, one push of its token - whatever the other element is")
+                if r == "sat":
+                    other = ex.discr(o.state, ttype[1 - i])
+                    ok_ = m.eval(other, model_completion=True).as_long()
+                    flagged.append((f"load_token_trivia/path{pi}/element{i + 1}",
+                                    f"comment element {i + 1} of a trivia list is formatted {len(mine)} times and pushed {len(pushed)} times (other element: {T.name('TokenType', ok_)})",
+                                    "load", {"function": "load_token_trivia"}))
+            if ses.reachable(list(o.pc) + [d == z3.BitVecVal(kinds["Whitespace"], 64)]):
+                r, m = ses.obligation(f"load_token_trivia/path{pi}/element{i + 1}/whitespace-creates-no-comment", list(o.pc) + [d == z3.BitVecVal(kinds["Whitespace"], 64)],
+                                      z3.BoolVal(bool(mine)), "whitespace trivia is not passed on as a token")
+                if r == "sat":
+                    flagged.append((f"load_token_trivia/path{pi}/element{i + 1}/ws", "whitespace trivia is formatted as a token", "load", {"function": "load_token_trivia"}))
     if n == 0:
         raise Inconclusive("load_token_trivia: no returning path")
+    rep.bounds["trivia_list_elements"] = 2
+    rep.bounds["load_token_trivia_paths"] = n
     return flagged
 
 
@@ -329,7 +359,8 @@ SCENARIOS = {
                       "local x = aaaaaaaaaaaaaaaaaaaaaaaaaaaaaaaaaaaaaaa + ( --[[b]] bbbbbbbbbbbbbbbbbbbbbbbbbbbbbbbbbbbbbbbbbbbb --[[c]] ) + cccccccccccccccccccccccccccccccccccccccccccccccc\n"],
     "condition": ["if ( --[[c]] y ) then\nend\n", "if (y --[[c]]) then end\n", "while ( --[[w]] y ) do end\n", "repeat until ( --[[u]] y )\n",
                   "if (y\n-- c\n) then end\n"],
-    "semicolon": ["local a = 1; -- c1\nlocal b = 2 --[[c2]] ; --[[c3]]\nf(); -- c4\n", "do local a = 1 --[[x]]; end\n", "return 1 --[[r]] ; -- tail\n"],
+    "semicolon": ["local a = 1; -- c1\nlocal b = 2 --[[c2]] ; --[[c3]]\nf(); -- c4\n", "do local a = 1 --[[x]]; end\n", "return 1 --[[r]] ; -- tail\n", "local function f()\n\treturn list[1]\n\t--[==[ own line ]==]\n\t;\nend\n",
+                  "while true do\n\tbreak\n\t--[[ b ]]\n\t;\nend\n", "local a = 1\n-- own\n;\nlocal b = 2\n"],
     "call-sugar": ["f( --[[a]] 'x' --[[b]] )\n", "f( --[[a]] { 1 } --[[b]] )\n", "f --[[a]] 'x' --[[b]]\n", "f --[[a]] { 1 } --[[b]]\n", "f( -- a\n'x')\n", "local y = f\n-- a\n('x')\n", "f('x'\n-- c\n)\n", "f({ 1 }\n-- c\n)\n"],
     "table": ["local t = { -- a\n\t1, -- b\n\t2 --[[c]], --[[d]]\n\t-- e\n}\n", "local t = { --[[a]] 1 --[[b]], --[[c]] 2 --[[d]] }\n", "local t = { --[[only]] }\n"],
     "functions": ["local function f( --[[a]] x --[[b]], --[[c]] y --[[d]] ) --[[e]]\n\t-- body\nend -- tail\n", "call( --[[a]] 1, --[[b]] 2 --[[c]] )\n",
@@ -343,7 +374,9 @@ SCENARIOS = {
                    "goto_label = 1 -- c\n-- only comment at end\n"],
     "index": ["x = a --[[1]] . --[[2]] b --[[3]] [ --[[4]] 1 --[[5]] ] --[[6]]\n", "x = a --[[1]] : --[[2]] m --[[3]] ( --[[4]] ) --[[5]]\n"],
 }
-FUNC2SCEN = {"format_expression_internal": ["paren-removal", "binops"], "format_hanging_expression_": ["paren-removal", "binops"], "format_function_args": ["call-sugar", "functions"], "format_block": ["semicolon", "statements"],
+SCENARIOS["trivia-lists"] = ["--[[ a ]]--[[ b ]]\nlocal M = {}\n", "--[=[a]=]-- b\nlocal x = 1\n", "local y = 2 --[[f]]--[[g]]\n", "local z = 3\n--[[ e1 ]]--[[ e2 ]]",
+                             "-- one\n-- two\n\n\n-- three\nlocal q = 1 -- four\n", "#!/usr/bin/lua\n-- after shebang\nlocal s = 1\n"]
+FUNC2SCEN = {"load_token_trivia": ["trivia-lists"], "format_expression_internal": ["paren-removal", "binops"], "format_hanging_expression_": ["paren-removal", "binops"], "format_function_args": ["call-sugar", "functions"], "format_block": ["semicolon", "statements"],
              "format_if": ["condition", "statements"], "format_while_block": ["condition", "statements"], "format_repeat_block": ["condition", "statements"],
              "format_table_constructor": ["table"], "format_index": ["index"], "remove_condition_parentheses": ["condition"]}
 
